@@ -1,7 +1,9 @@
 """Token-level mutations of grammatical experiments (the malformed stream of C06)."""
 import gen
 
-ILLEGAL = ["=", ".", ";", "@", "$", "!", "&", "|", "~", "?", "^", "`", "[", "]", "\\", "#", "%", "+", "*", "/", "€", "\x00"]
+ILLEGAL = ["=", ".", ";", "@", "$", "!", "&", "|", "~", "?", "^", "`", "[", "]", "\\", "#", "%", "+", "*", "/", "€", "\x00",
+           # invisible / format characters that editors and file encodings introduce
+           "\ufeff", "\u200b", "\u200c", "\u200d", "\u2060", "\u00ad", "\x7f", "\x1b", "\x08", "\u202e", "\ufffd", "\U000e0001"]
 VOCAB = ["def", "salt", "splitters", "if", "else", "else if", "weighted", "return", "and", "or", "not", "in", "not in",
          "(", ")", "-", ",", ":", "{", "}", "==", ">", "<", ">=", "<=", "!=", "x", "y", "1", "2.5", '"s"', "'t'"]
 
@@ -10,6 +12,8 @@ def mutate(toks, rng):
     """-> (kind, token list)"""
     toks = list(toks)
     n = len(toks)
+    if n < 2:
+        return "insert", toks + [rng.choice(VOCAB)]
     kind = rng.choice(["delete", "duplicate", "swap", "insert", "replace", "illegal", "illegal-glued", "prefix", "suffix",
                        "concat", "truncate", "unterminated-string", "unterminated-comment", "split-op", "two-mutations"])
     if kind == "delete":
